@@ -2,6 +2,15 @@ import Model.RdataText
 /-! The tokenizer automaton on printed text: identifiers, quoted strings, separators (C05). -/
 namespace Model
 
+/-- obligations on the constants of `dns/tokenizer.py`: the model's delimiter test is the code's `_DELIMITERS` set,
+and inside quotes only `"` delimits (`_QUOTING_DELIMITERS`) -/
+theorem isDelim_generated (c : Nat) : isDelim c = decide (c ∈ ConstsC05.delimiters) := by
+  simp only [isDelim, ConstsC05.delimiters, List.mem_cons, List.mem_nil_iff, or_false]
+  by_cases h9 : c = 9 <;> by_cases h10 : c = 10 <;> by_cases h32 : c = 32 <;> by_cases h34 : c = 34 <;>
+    by_cases h40 : c = 40 <;> by_cases h41 : c = 41 <;> by_cases h59 : c = 59 <;> simp [*]
+
+theorem quotingDelimiters_generated : ConstsC05.quotingDelimiters = [34] := by decide
+
 /-- an identifier body: no unescaped delimiter, every backslash followed by a character other than newline.
 The flag says that the previous character was an unescaped backslash. -/
 def identBodyAux : Bool → List Nat → Bool
